@@ -124,6 +124,9 @@ pub enum Flavour {
     /// all methods overridden; operation k fails once, every later operation is accepted again (a
     /// transient fault, or a fixed-capacity buffer that refuses a large write and takes a smaller one)
     Transient,
+    /// only the required methods are implemented and the fault is transient: the trait's provided
+    /// methods (write_zeros, write_twoc, write_bytes_aligned) see a failure followed by success
+    MinimalTransient,
 }
 
 /// A sink that fails on its `k`-th operation (0-based). `k = usize::MAX` never fails.
@@ -134,11 +137,13 @@ pub struct FailingSink {
     pub flavour: Flavour,
     pub failed: bool,
     pub calls_after_failure: usize,
+    /// first call that broke the trait's contract (more bits than the operand has)
+    pub contract_violation: Option<String>,
 }
 
 impl FailingSink {
     pub fn new(k: usize, flavour: Flavour) -> Self {
-        Self { inner: ModelSink::default(), ops: 0, k, flavour, failed: false, calls_after_failure: 0 }
+        Self { inner: ModelSink::default(), ops: 0, k, flavour, failed: false, calls_after_failure: 0, contract_violation: None }
     }
     #[inline]
     fn op(&mut self, counts: bool) -> Result<(), SinkFailure> {
@@ -146,9 +151,10 @@ impl FailingSink {
             self.calls_after_failure += 1;
         }
         if counts {
-            if self.ops == self.k && !(self.flavour == Flavour::Transient && self.failed) {
+            let transient = matches!(self.flavour, Flavour::Transient | Flavour::MinimalTransient);
+            if self.ops == self.k && !(transient && self.failed) {
                 self.failed = true;
-                if self.flavour == Flavour::Transient {
+                if transient {
                     // the failed operation is consumed; the sink works again afterwards
                     self.ops += 1;
                 }
@@ -170,11 +176,19 @@ impl BitSink for MinimalFailing {
     }
     fn write_lsbs<T: Bits>(&mut self, val: T, n: usize) -> Result<(), SinkFailure> {
         self.0.op(true)?;
+        if n > width_of::<T>() {
+            self.0.contract_violation.get_or_insert(format!("write_lsbs asked for {n} bits of a {}-bit operand", width_of::<T>()));
+            return Ok(());
+        }
         self.0.inner.write_lsbs(val, n).unwrap();
         Ok(())
     }
     fn write_msbs<T: Bits>(&mut self, val: T, n: usize) -> Result<(), SinkFailure> {
         self.0.op(true)?;
+        if n > width_of::<T>() {
+            self.0.contract_violation.get_or_insert(format!("write_msbs asked for {n} bits of a {}-bit operand", width_of::<T>()));
+            return Ok(());
+        }
         self.0.inner.write_msbs(val, n).unwrap();
         Ok(())
     }
